@@ -97,9 +97,15 @@ def one(subs: str, rng: Any, per_leaf: bool, ell: tuple[int, ...] = ELL, ell_blo
     if ny.size == 0 or ny.ndim == 0 and False:
         return
     LOG.count('C14.strings', 'valid-einsum')
+    stokes_leaves = (not per_leaf) and len(subs) % 5 == 0
     if per_leaf:
         blocks: Any = [jnp.asarray(nb, dtype=dt), jnp.asarray(nb[::-1].copy() if nb.ndim else nb, dtype=dt)]
         s: Any = [gen.S(xshape, dt), gen.S(xshape, dt)]
+    elif stokes_leaves:
+        # one shared block array applied to every component of a Stokes container
+        from furax.landscapes import StokesQUPyTree
+        blocks = jnp.asarray(nb, dtype=dt)
+        s = StokesQUPyTree.structure_for(xshape, dt)
     else:
         blocks = jnp.asarray(nb, dtype=dt)
         s = gen.S(xshape, dt)
@@ -108,6 +114,8 @@ def one(subs: str, rng: Any, per_leaf: bool, ell: tuple[int, ...] = ELL, ell_blo
         op = DenseBlockDiagonalOperator(blocks, s, subs)
         x = jax.tree.map(lambda l: jnp.asarray(nx, dtype=dt), s)
         y = op.mv(x)                                      # monitored: reference model numpy.einsum
+        op(x)                                             # monitored: op(x) is op.mv(x)
+        op(jax.tree.map(lambda l: l.astype(jnp.complex64), x))   # also for data wider than the declared structure
         LOG.evaluated(mon)
     except Exception as exc:  # noqa: BLE001
         LOG.evaluated(mon)
@@ -179,14 +187,41 @@ def case_ijk(rng: Any, ctx: Ctx, index: int) -> None:
             one(subs, rng, per_leaf=bool(rng.integers(2)), ell=ELL2, ell_blocks=())
 
 
+_batch: list[str] = []
+
+
+def batch_forms() -> list[str]:
+    """Docstring-like batch forms with one or two batch letters: the block term is any permutation of the batch letters
+    with i and j, the leaf term any order of the batch letters with j, the result the leaf term with j replaced by i
+    (so the independent predicate holds: all of them must be transposable), with an optional trailing/leading ellipsis."""
+    if not _batch:
+        for batch in ('h', 'hk'):
+            for left in itertools.permutations(batch + 'ij'):
+                for right in itertools.permutations(batch + 'j'):
+                    l, r = ''.join(left), ''.join(right)
+                    res = r.replace('j', 'i')
+                    _batch.append(f'{l},{r}->{res}')
+                    _batch.append(f'{l}...,{r}...->{res}...')
+                    _batch.append(f'...{l},...{r}->...{res}')
+    return _batch
+
+
+def case_batch(rng: Any, ctx: Ctx, index: int) -> None:
+    one(batch_forms()[index], rng, per_leaf=bool(index % 3 == 0))
+
+
 def case_h(rng: Any, ctx: Ctx, index: int) -> None:
     one(strings('hijk')[index], rng, per_leaf=bool(rng.integers(4) == 0))
 
 
 def run(ctx: Ctx) -> None:
+    from .. import monitors
+    monitors._call_prop.value = 'C14'
     enable('mvref')
     n_ij, n_ijk = len(strings('ij')), len(strings('ijk'))
     LOG.count('C14.space', f'ij={n_ij},ijk={n_ijk}')
+    nb = len(batch_forms())
+    drive(ctx, case_batch, nb, nb, stream=3, part='ij')
     drive(ctx, case_ij, n_ij, n_ij, stream=0, part='ij')
     drive(ctx, case_ijk, n_ijk, n_ijk, stream=1, part='ijk')
     if ctx.thorough:
